@@ -90,6 +90,13 @@ func convertTraces(t Traces, sorted bool, opts pkg.WriterOptions) (res trResult)
 
 // convertTracesSeq: the batches in `before` first, through the SAME converter and writer.
 func convertTracesSeq(before []Traces, t Traces, sorted bool, opts pkg.WriterOptions) (res trResult) {
+	return convertTracesSeqW(before, t, sorted, opts, false)
+}
+
+// convertTracesSeqW: with freshWriter the batches in `before` go through the converter into a writer
+// of their own (a first stream), and `t` through the SAME converter into a NEW writer (a second
+// stream, as after a reconnect): only the second stream is read back.
+func convertTracesSeqW(before []Traces, t Traces, sorted bool, opts pkg.WriterOptions, freshWriter bool) (res trResult) {
 	src := BuildTraces(t)
 	buf := &pkg.MemChunkWriter{}
 	func() {
@@ -110,6 +117,13 @@ func convertTracesSeq(before []Traces, t Traces, sorted bool, opts pkg.WriterOpt
 				return
 			}
 			if err := writer.Flush(); err != nil {
+				res.err = "w:" + classifyErr(err)
+				return
+			}
+		}
+		if freshWriter {
+			buf = &pkg.MemChunkWriter{}
+			if writer, err = otelstef.NewSpansWriter(buf, opts); err != nil {
 				res.err = "w:" + classifyErr(err)
 				return
 			}
@@ -309,6 +323,16 @@ func renderSpanRecs(recs []SpanRec) string {
 }
 
 var _ = sort.Strings
+
+// evalTracesReuse: `prev` through a converter into one stream, then `t` through the SAME converter into
+// a second stream with a writer of its own; the second stream must carry exactly `t`.
+func evalTracesReuse(prev, t Traces, opts pkg.WriterOptions) [2]verdict {
+	var vs [2]verdict
+	for i, m := range tmodes {
+		vs[i] = checkTraces(t, m.sorted, convertTracesSeqW([]Traces{prev}, t, m.sorted, opts, true))
+	}
+	return vs
+}
 
 // evalTracesSeq: `prev` then `t` through one converter and one writer, both modes.
 func evalTracesSeq(prev, t Traces, opts pkg.WriterOptions) [2]verdict {
